@@ -682,6 +682,34 @@ def run_c11(rep, tier, seed):
                 rep.violation("oracle", dict(what="; ".join(probs[:3]), script=script, history=h[:500]))
         if ri == 0:
             rep.sample({"script": script, "history_head": h[:8]})
+    # forced interleavings through TCP (schedule points of the store, reached from the server's blocking pool)
+    SETk = req_bytes(("SET", b"k", b"v")).hex()
+    DELk = req_bytes(("DEL", [b"k"])).hex()
+    GETk = req_bytes(("GET", b"k")).hex()
+    forced = [
+        ("two clients delete the same key: one DEL holds the writer lock with the key still indexed while the other arrives",
+         ["c.open a", "c.open b", "c.open c", f"c.send c {SETk}", "c.read c 1 5000", "np.park del.before_publish 1", f"c.send a {DELk}", "np.wait 5000",
+          f"c.send b {DELk}", "sleep 200", "np.release", "c.read a 1 5000", "c.read b 1 5000", f"c.send c {GETk}", "c.read c 1 5000"],
+         lambda a: (a[7] == "parked del.before_publish" and sorted([a[11], a[12]]) == ["I:0", "I:1"] and a[14] == "N", "replies I:0 and I:1 in some order, then GET -> null")),
+        ("a client reads while another client's SET has appended but not yet published: old value; after the publish: new value",
+         ["c.open a", "c.open b", f"c.send a {SETk}", "c.read a 1 5000", "np.park put.before_publish 1", "c.send a " + req_bytes(("SET", b"k", b"w")).hex(), "np.wait 5000",
+          f"c.send b {GETk}", "c.read b 1 5000", "np.release", "c.read a 1 5000", f"c.send b {GETk}", "c.read b 1 5000"],
+         lambda a: (a[6] == "parked put.before_publish" and a[8] == "B:76" and a[10] == "S:4f4b" and a[12] == "B:77", "GET -> v while parked, +OK, then GET -> w")),
+    ]
+    for name, steps, pred in forced:
+        script = ["srv.start max=16 mfs=1000000 pool=2"] + steps + ["srv.stop"]
+        shutil.rmtree(root, ignore_errors=True)
+        try:
+            ans = run_harness(["net", "--root", root, "--hang-ms", "30000"], script, timeout=120)
+        except Died as d:
+            rep.violation("oracle", dict(what=f"forced interleaving `{name}`: harness died / hung ({d.why})", script=script, answers=d.answered))
+            continue
+        rep.cov["evaluations"] += len(script)
+        rep.count("forced_interleavings")
+        rep.nontrivial(["c11f", name])
+        ok, want = pred(ans[1:])
+        if not ok:
+            rep.violation("oracle", dict(what=f"forced interleaving `{name}`: not consistent with any single order of the commands", script=script, answers=ans, expected=want, observed=";".join(ans[1:])[:600]))
     shutil.rmtree(root, ignore_errors=True)
     rep.cov["rule"] = ("2-8 client connections issue SET (unique values, 8..38 bytes or 9000 bytes) / GET / single-key DEL on 1-3 keys concurrently against the real server (4 worker threads + blocking pool) "
                        "while a thread forces merges through a direct handle and max_file_size in {0,60,300,9000} forces rollovers; each command's send/receive times and reply form a history that is "
